@@ -19,6 +19,10 @@ NS = [
     ("", sstr(Atom("ns2.iri"), "/")),
     (sstr(Atom("pfx3", nosep=True)), sstr(Atom("ns3.whole", nosep=True))),
     ("ex", "http://example.org/ünï/"),
+    # two namespaces without a trailing separator that share their parent path: the second one's prefix part equals the
+    # first one's, so it travels as prefix_id 0 ("same as the last prefix used")
+    ("alpha", sstr(Atom("ns5.scheme", nosep=True), "/", Atom("ns5.path", nosep=True), "/alpha")),
+    ("beta", sstr(Atom("ns5.scheme", nosep=True), "/", Atom("ns5.path", nosep=True), "/beta")),
 ]
 
 
@@ -44,8 +48,8 @@ def _reader_ns(k: K.Kit, integ: str, frames: list) -> tuple[list, list, list]:
     return events, bound, shapes
 
 
-def _write(k: K.Kit, integ: str, physical: int, stmts: list, ns_enabled: bool, bindings: list, via: str) -> list:
-    opts = P.make_options(k, logical=None, namespaces=ns_enabled, generalized=integ == "generic", rdf_star=integ == "generic")
+def _write(k: K.Kit, integ: str, physical: int, stmts: list, ns_enabled: bool, bindings: list, via: str, frame_size: int = 250) -> list:
+    opts = P.make_options(k, logical=None, namespaces=ns_enabled, generalized=integ == "generic", rdf_star=integ == "generic", frame_size=frame_size)
     writer = P.write_generic if integ == "generic" else P.write_rdflib
     frames, _stream = writer(k, physical, stmts, opts, via=via, namespaces=bindings)
     return frames
@@ -65,20 +69,20 @@ def check(chk: Check) -> None:
         for physical in (1, 2, 3):
             arity = 3 if physical == 1 else 4
             stmts = [tuple(C.base("a", arity)), tuple(C.base("b", arity))]
-            for via in (("sink", "grouped2", "generator") if integ == "generic" else ("store", "grouped2", "generator")):
+            for via, fsz in [(v, f_) for v in (("sink", "grouped2", "generator") if integ == "generic" else ("store", "grouped2", "generator")) for f_ in (250, 2)]:
 
                 def scenario(it: Interp) -> Any:
                     k = K.Kit(it)
                     out: dict[str, Any] = {}
                     bindings = NS if via != "generator" else None
                     try:
-                        off = _write(k, integ, physical, stmts, False, bindings, via)
+                        off = _write(k, integ, physical, stmts, False, bindings, via, fsz)
                         out["off_rows"] = [x for x in refdec.decode(it.schema, off).items if x[0] == "ns"]
                         out["off_stmts"] = freeze([x for x in refdec.decode(it.schema, off).items if x[0] != "ns"])
                     except PyRaise as pr:
                         out["off_error"] = (it.exc_class_name(pr.exc), str(pr.site))
                     try:
-                        on = _write(k, integ, physical, stmts, True, bindings, via)
+                        on = _write(k, integ, physical, stmts, True, bindings, via, fsz)
                     except PyRaise as pr:
                         out["on_error"] = (it.exc_class_name(pr.exc), str(pr.site))
                         return out
@@ -100,7 +104,7 @@ def check(chk: Check) -> None:
                         out["reader_error"] = (it.exc_class_name(pr.exc), str(pr.site))
                     return out
 
-                inst = f"{integ} physical={physical} via={via}"
+                inst = f"{integ} physical={physical} via={via} frame_size={fsz}"
                 for it, res in explore(prog, scenario, max_paths=16, generic_strings=True):
                     chk.paths += 1
                     chk.saw_functions(it)
